@@ -505,8 +505,14 @@ func init() {
 				if c {
 					st.Discharged++
 				} else {
-					st.Failed++
+					n0 := len(m.res.violations)
 					m.reportViolation("assert", id, "assertion "+id+" fails at "+m.posStr(fr), nil)
+					if len(m.res.violations) == n0 {
+						// no model for the path condition (solver unknown): neither a pass nor a reported failure
+						st.Unknown++
+						panic(&pathEnd{kind: "inconclusive", msg: "assertion " + id + " fails on a path whose model query was not answered"})
+					}
+					st.Failed++
 					panic(&pathEnd{kind: "violation", msg: id})
 				}
 			case *Term:
